@@ -23,6 +23,18 @@ type c06Graph struct {
 	// NullRoot: types whose root object carries {nullable: true}: null is an instance,
 	// so nothing inside them is mandatory for whoever refers to them.
 	NullRoot []string `json:"nullRoot,omitempty"`
+	// Bare: types that ARE a reference or a choice (`@a`, `@a | @b`) instead of an
+	// object holding one; each has exactly one plain or choice link.
+	Bare []string `json:"bare,omitempty"`
+}
+
+func (g *c06Graph) bare(n string) bool {
+	for _, x := range g.Bare {
+		if x == n {
+			return true
+		}
+	}
+	return false
 }
 
 func (g *c06Graph) nullRoot(n string) bool {
@@ -79,9 +91,21 @@ func c06TypeText(links []c06Link) string {
 
 func (g *c06Graph) project() *project {
 	p := &project{Root: c06TypeText(g.Types["@main"]), Types: map[string]string{}, Self: "@main"}
+	if g.bare("@main") {
+		l := g.Types["@main"][0]
+		p.Root = l.Targets[0]
+		if l.Kind == "choice" {
+			p.Root += " | " + l.Targets[1]
+		}
+	}
 	for n, l := range g.Types {
 		if n != "@main" {
-			if g.nullRoot(n) {
+			if g.bare(n) {
+				p.Types[n] = l[0].Targets[0]
+				if l[0].Kind == "choice" {
+					p.Types[n] += " | " + l[0].Targets[1]
+				}
+			} else if g.nullRoot(n) {
 				p.Types[n] = c06TypeTextNull(l)
 			} else {
 				p.Types[n] = c06TypeText(l)
@@ -411,8 +435,70 @@ func c06Run(w *core.W) {
 	if w.Shard == 0 {
 		w.Count("wrapped.graphs", f3*2)
 	}
+	// F4: types that are themselves a reference or a choice
+	names4 := []string{"@main", "@a", "@b", "@fin"}
+	var bareForms, objForms [][]c06Link
+	for _, x := range names4 {
+		bareForms = append(bareForms, []c06Link{{Kind: "plain", Targets: []string{x}}})
+		for _, y := range names4 {
+			if x != y {
+				bareForms = append(bareForms, []c06Link{{Kind: "choice", Targets: []string{x, y}}})
+			}
+		}
+	}
+	for _, k := range []string{"plain", "optional", "array"} {
+		for _, x := range names4 {
+			objForms = append(objForms, []c06Link{{Kind: k, Targets: []string{x}}})
+		}
+	}
+	for _, x := range names4 {
+		for _, y := range names4 {
+			objForms = append(objForms, []c06Link{{Kind: "choice", Targets: []string{x, y}}})
+		}
+	}
+	var f4 int64
+	for _, m := range objForms {
+		for _, a := range bareForms {
+			for bi, b := range append(append([][]c06Link{}, bareForms...), objForms...) {
+				f4++
+				if !w.Mine(f4) {
+					continue
+				}
+				g := &c06Graph{Types: map[string][]c06Link{"@main": m, "@a": a, "@b": b, "@fin": {{Kind: "scalar"}}}, Bare: []string{"@a"}}
+				if bi < len(bareForms) {
+					g.Bare = append(g.Bare, "@b")
+				}
+				c06Case(w, g, "bare-types")
+			}
+		}
+	}
+	// ... and a root that is one
+	for _, m := range bareForms {
+		if m[0].Targets[0] == "@main" || (m[0].Kind == "choice" && m[0].Targets[1] == "@main") {
+			continue // the root schema itself is not registered under a name here
+		}
+		for _, a := range append(append([][]c06Link{}, bareForms...), objForms...) {
+			for bi, b := range append(append([][]c06Link{}, bareForms...), objForms...) {
+				f4++
+				if !w.Mine(f4) {
+					continue
+				}
+				g := &c06Graph{Types: map[string][]c06Link{"@main": m, "@a": a, "@b": b, "@fin": {{Kind: "scalar"}}}, Bare: []string{"@main"}}
+				if len(a) == 1 && (a[0].Kind == "plain" || a[0].Kind == "choice") && f4%2 == 0 {
+					g.Bare = append(g.Bare, "@a")
+				}
+				if bi < len(bareForms) {
+					g.Bare = append(g.Bare, "@b")
+				}
+				c06Case(w, g, "bare-types")
+			}
+		}
+	}
 	if w.Shard == 0 {
-		w.S.States += i*int64(len(others)) + j*2 + f3*2
+		w.Count("bare.graphs", f4)
+	}
+	if w.Shard == 0 {
+		w.S.States += i*int64(len(others)) + j*2 + f3*2 + f4
 		w.Count("chains", j*2)
 		w.Sample((&c06Graph{Types: map[string][]c06Link{"@main": full[30], "@a": others[5], "@b": others[9]}}).project().describe())
 	}
